@@ -44,6 +44,12 @@ ASSUMPTIONS = [
     'json.dumps/json.loads is the identity on the dict form (checked: the from_json(to_json) route is compared with from_dict(to_dict))',
     'lists hold fewer than 24 elements (the patched decode_array mis-reads definite arrays of 24+ elements; reported separately)',
     'blake2b is external: datum_hash is checked to be the hash of the same bytes as to_cbor; equal bytes give equal hashes',
+    'DOMAIN RESTRICTION (explicit): on the two build routes of a raw case (RawPlutusData over the canonical / the Python-list '
+    'shape) data whose maps have duplicate keys or keys that are lists / constructors with fields is outside the quantifier: a '
+    'Python dict cannot hold such keys, the object cannot be written down. The decode, to_dict and JSON routes of the same data '
+    'are inside the quantifier and their failures are reported (regions map-dup-keys, map-key-unhashable-decode/-build)',
+    'failures inside a region are reported to tools/check.py with the region string (shortest input per region); whether a '
+    'region is a known finding is decided by /verif/known_findings.json, not by this module',
 ]
 
 REGIONS = {
@@ -69,8 +75,22 @@ REGIONS = {
     19: 'map-key-list-to-dict',
     20: 'typed-to-dict-cbortag',
 }
-# regions already observed on the pinned tree (reported to the coordinator; to be wired into known_findings.json)
-KNOWN_REGIONS = [v for k, v in REGIONS.items() if v and v != 'typed-datum-field-shape']
+# Every region except 'typed-datum-field-shape' (an invariant of the generator: raw data inside Datum fields is generated
+# canonical) is a genuine violation of the property text on the unchanged tree.  They are NOT filtered here: a failing
+# route is returned in `oracle_fail` with its region string and tools/check.py decides -- region listed in
+# /verif/known_findings.json (property C18, status known) => KNOWN-FINDING line, anything else => VIOLATION.
+FINDING_REGIONS = [v for k, v in REGIONS.items() if v and v != 'typed-datum-field-shape']
+# DOMAIN RESTRICTION (not a finding, see ASSUMPTIONS): a Python dict cannot hold two equal keys nor an unhashable key, so
+# raw data with duplicate map keys or with list-/constructor-with-fields keys has no RawPlutusData(dict) representation
+# at all; on the two BUILD routes of a raw case such data is outside the quantifier (the driver's own dict literal
+# collapses / raises).  The decode and JSON routes of the same data ARE inside and are reported.
+UNREPRESENTABLE = {('raw', 'canon'), ('raw', 'py')}
+UNREPRESENTABLE_REGIONS = {'map-dup-keys', 'map-key-unhashable-build'}
+
+
+def listed_regions():
+    """regions listed as known findings of C18 in /verif/known_findings.json"""
+    return {f['region'] for f in C.known_findings(PID)}
 
 
 # ================================================================ translator (Python ast -> Gallina)
@@ -306,6 +326,9 @@ def fixed_cases():
     cs.append({'kind': 'typed', 't': E, 'x': ['o', 9, [], []]})
     E2 = ['cls', 200, []]
     cs.append({'kind': 'typed', 't': E2, 'x': ['o', 200, [], []]})
+    # plain bytes over 64 bytes inside a container escape the long-bytes guard (region typed-long-bytes-in-container)
+    LB = ['cls', 1, [['list', ['bytes']]]]
+    cs.append({'kind': 'typed', 't': LB, 'x': ['o', 1, LB[2], [['il', [['b', '01' * 65]]]]]})
     cs += objkey_cases()
     D = ['cls', 3, [['datum'], ['ilist']]]
     for dv in (['i', 5], ['b', '6162'], ['il', [['i', 1]]], ['il', []], ['d', [[['i', 1], ['i', 2]]]], ['r', ['t', 121, ['il', [['i', 1]]]]],
@@ -438,14 +461,21 @@ def correspond(ctx, n=None):
             objkey['of_which_some_key_has_fields'] += int(G.has_objkey(c['x'], True))
         if c['kind'] == 'raw':
             dd = G.depth_of(c['d']); depth_hist[dd] = depth_hist.get(dd, 0) + 1
-    known_hits, new_fail = 0, []
+    region_hits, unrepresentable, new_fail, per_region = 0, 0, [], {}
     for (i, route, reg) in sorted(ofail):
         name = REGIONS.get(reg)
+        if name in UNREPRESENTABLE_REGIONS and (cases[i]['kind'], route_name(cases[i], route)) in UNREPRESENTABLE:
+            unrepresentable += 1                           # outside the quantifier (see ASSUMPTIONS)
+            continue
         regions[name or 'NONE'] = regions.get(name or 'NONE', 0) + 1
-        if name in KNOWN_REGIONS:
-            known_hits += 1
-        else:
+        if name is None:
             new_fail.append((i, route, name))
+        else:
+            region_hits += 1
+            size = len(json.dumps(cases[i].get('d') or cases[i].get('x') or cases[i]))
+            if name not in per_region or size < per_region[name][0]:
+                per_region[name] = (size, i, route)        # shortest input per region
+    reps = [(i, route, name) for name, (_, i, route) in sorted(per_region.items())]
     distinct = len({C.canon_hash({k: v for k, v in c.items() if k not in ('ref', 'json')}) for c in cases if nontrivial(c)})
 
     def pack(i, route, region=None):
@@ -463,11 +493,12 @@ def correspond(ctx, n=None):
              'non-trivial = raw data of depth >= 1 or a class with >= 1 field; distinct by hash of the input',
         samples=[{k: v for k, v in cases[j].items() if k != 'json'} for j in (0, len(cases) // 2, len(cases) - 1)],
         kind_histogram=kinds, raw_depth_histogram=depth_hist, region_histogram=regions, map_key_histogram=objkey,
-        known_region_hits=known_hits, known_regions=KNOWN_REGIONS,
+        known_region_hits=region_hits, known_regions=sorted(listed_regions()), finding_regions=FINDING_REGIONS,
+        unrepresentable_build_inputs=unrepresentable,
         routes_observed=stats[0], routes_in_sound_region=stats[1],
         compared='implementation bytes/JSON/exception kind of every route = model (exact) and = enc(plutus_ref d) / json_of d (oracle)',
         mismatches=[pack(i, r) for i, r in sorted(mism)[:20]],
-        oracle_fail=[pack(i, r, name) for i, r, name in new_fail[:50]],
+        oracle_fail=[pack(i, r, name) for i, r, name in new_fail[:50]] + [pack(i, r, name) for i, r, name in reps],
     )
 
 
@@ -475,13 +506,14 @@ def search(ctx, mism):
     n = 4000 if ctx.quick else 40000
     ctx.rng.seed(f'search-{ctx.seed}')
     r = correspond(ctx, n)
-    if r['oracle_fail']:
-        return r['oracle_fail'][0]
-    return None
+    known = listed_regions()
+    new = [f for f in r['oracle_fail'] if f.get('region') not in known]
+    return new[0] if new else None
 
 
 def replay(ctx, rep):
-    case = finish_case({k: v for k, v in rep['case']['input'].items()})
+    src = rep.get('case') or rep.get('witness') or rep          # a replay file, a known_findings entry, or a bare case
+    case = finish_case({k: v for k, v in src['input'].items() if k not in ('ref', 'json')})
     res = C.run_impl('plutus_driver', {'cases': [case]}, nshards=1)
     mism, ofail, errs, _ = evaluate([case], res)
     print('input:', json.dumps({k: v for k, v in case.items() if k != 'json'}))
@@ -489,5 +521,8 @@ def replay(ctx, rep):
     print('reference bytes:', case.get('ref'))
     print('model differs on routes:', sorted(route_name(case, r) for _, r in mism))
     print('property fails on routes:', sorted((route_name(case, r), REGIONS.get(g)) for _, r, g in ofail))
-    bad = [x for x in ofail if REGIONS.get(x[2]) not in KNOWN_REGIONS]
+    known = listed_regions()
+    bad = [x for x in ofail if REGIONS.get(x[2]) not in known
+           and not (REGIONS.get(x[2]) in UNREPRESENTABLE_REGIONS and (case['kind'], route_name(case, x[1])) in UNREPRESENTABLE)]
+    print('regions listed in known_findings.json:', sorted(known))
     return 1 if bad or errs else 0
